@@ -1685,6 +1685,21 @@ struct Found {
     mu: Option<(Mutation, usize, u64)>,
 }
 
+type Worker = (std::sync::mpsc::Sender<(Vec<u8>, usize, u64)>, std::sync::mpsc::Receiver<Result<(), Trap>>);
+fn spawn_worker() -> Worker {
+    let (tx, rx) = std::sync::mpsc::channel::<(Vec<u8>, usize, u64)>();
+    let (tx2, rx2) = std::sync::mpsc::channel();
+    let _ = std::thread::Builder::new().stack_size(8 << 20).spawn(move || {
+        while let Ok((bytes, api, sel)) = rx.recv() {
+            let r = run_api(&bytes, api, sel);
+            if tx2.send(r).is_err() {
+                break;
+            }
+        }
+    });
+    (tx, rx2)
+}
+
 fn describe_mut(fonts: &[(&'static str, Vec<u8>)], m: &Mutation, api: usize, sel: u64) -> serde_json::Value {
     let edits: Vec<serde_json::Value> = m.edits.iter().map(|(w, _, b)| json!({"at": w, "bytes_hex": b.iter().map(|x| format!("{:02x}", x)).collect::<String>()})).collect();
     json!({"kind": "field-mutation", "font": fonts[m.font].0, "edits": edits, "api": API_NAMES[api], "api_selector": sel,
@@ -1745,7 +1760,8 @@ fn search(seed: u64, thorough: bool, st: &mut Stats, fonts: &[(&'static str, Vec
                     }
                     i += threads;
                 }
-                // field mutations
+                // field mutations (each API call runs on a helper thread so that a hang can be abandoned)
+                let mut worker: Option<Worker> = None;
                 let mut i = t + envn("C20_MUT_FROM", 0);
                 while i < n_mut {
                     let mut rng = Rng::new(seed ^ i.wrapping_mul(0x9E3779B97F4A7C15) ^ 0xF0F0);
@@ -1772,13 +1788,16 @@ fn search(seed: u64, thorough: bool, st: &mut Stats, fonts: &[(&'static str, Vec
                             continue;
                         }
                         let res = {
-                            let (tx, rx) = std::sync::mpsc::channel();
-                            let b2 = bytes.clone();
-                            let _ = std::thread::Builder::new().stack_size(4 << 20).spawn(move || {
-                                let r = run_api(&b2, api, sel);
-                                let _ = tx.send(r);
-                            });
-                            rx.recv_timeout(std::time::Duration::from_secs(20))
+                            if worker.is_none() {
+                                worker = Some(spawn_worker());
+                            }
+                            let w = worker.as_ref().unwrap();
+                            let _ = w.0.send((bytes.clone(), api, sel));
+                            let r = w.1.recv_timeout(std::time::Duration::from_secs(20));
+                            if r.is_err() {
+                                worker = None; // abandon the spinning helper
+                            }
+                            r
                         };
                         let res = match res {
                             Ok(r) => r,
